@@ -126,8 +126,30 @@ func (c *inlCtx) candidate(e ast.Expr) (*ast.CallExpr, *Func) {
 		return nil, nil
 	}
 	sig := f.Sig()
-	if sig.TypeParams().Len() > 0 || sig.RecvTypeParams().Len() > 0 {
+	if sig.TypeParams().Len() > 0 {
 		return nil, nil
+	}
+	if sig.RecvTypeParams().Len() > 0 {
+		// a method of a generic type: its text can be spliced only if it never names a type parameter (the caller's
+		// receiver may name them differently)
+		mentions := false
+		ast.Inspect(f.Decl, func(n ast.Node) bool {
+			if id, ok := n.(*ast.Ident); ok && n != ast.Node(f.Decl.Recv) {
+				if tn, ok := f.Pkg.TypesInfo.Uses[id].(*types.TypeName); ok {
+					if _, isTP := tn.Type().(*types.TypeParam); isTP {
+						mentions = true
+					}
+				}
+			}
+			if fl, ok := n.(*ast.FieldList); ok && fl == f.Decl.Recv {
+				return false
+			}
+			return !mentions
+		})
+		if mentions {
+			c.skip(call, f, "the helper is a method of a generic type and names a type parameter")
+			return nil, nil
+		}
 	}
 	if sig.Variadic() && !call.Ellipsis.IsValid() {
 		return nil, nil
